@@ -18,7 +18,8 @@ EXPLANATION = (
     "never in the order of X's columns, so permuting columns cannot change how ties are broken); "
     "R-colsample-cover (no feature is skipped by the colsample split, so a copy of the target is always measured); "
     "R-encoding-free (exported measures apply no absolute tolerance / rounding to raw values and no one-sided "
-    "order statistic: they commute with positive rescaling and negation)."
+    "order statistic, and no order comparison of a quantity that changes sign with the feature (x, x - mean, a quantile) "
+    "outside abs / an even power / a two-sided between: they commute with positive rescaling and negation)."
 )
 NOT_DECIDED = "the invariance of the returned list on data; scipy's statistics"
 FLOORS = {"R-abs-corr": 2, "R-no-float-truthiness": 10, "R-rank-desc": 5, "R-defaults": 5, "R-column-order-free": 3, "R-colsample-cover": 2, "R-encoding-free": 10}
@@ -45,6 +46,7 @@ MUTANTS = [
     M("colsample split drops the remainder", [(F_SEL, "                    # adding last sample with all remaining features\n                    feature_samples += [features[chunks * (int(1 / self.colsample) - 1) :]]\n", ""), (F_SEL, "                        for i in range(int(1 / self.colsample) - 1)", "                        for i in range(int(1 / self.colsample))")], "R-colsample-cover"),
     M("quartiles taken as lower order statistics", [(F_QTM, "    q3 = x.quantile(0.75)  # 3rd quartile\n    q1 = x.quantile(0.25)  # 1st quartile", "    q3 = x.quantile(0.75, interpolation=\"lower\")  # 3rd quartile\n    q1 = x.quantile(0.25, interpolation=\"lower\")  # 1st quartile")], "R-encoding-free", "iqr_measure"),
     M("mode share with an absolute tolerance", [("AutoCarver/selectors/measures/base_measures.py", "    pct_mode = (x == mode).mean()  # Computing percentage of the mode", "    pct_mode = isclose(x, mode).mean()  # Computing percentage of the mode"), ("AutoCarver/selectors/measures/base_measures.py", "from pandas import Series", "from numpy import isclose\nfrom pandas import Series")], "R-encoding-free", "mode_measure"),
+    M("zscore counts the upper tail only", [(F_QTM, "    outliers = abs(zscore) > 3", "    outliers = zscore > 3")], "R-encoding-free", "zscore_measure"),
     M("ranking ascending", [(F_SEL, "        initial_associations = initial_associations.sort_values(measure_names, ascending=False)", "        initial_associations = initial_associations.sort_values(measure_names, ascending=True)")], "R-rank-desc", "decreasing"),
     M("regression default uses the pearson filter", [("AutoCarver/selectors/regression_selector.py", "            quantitative_filters = [spearman_filter]", "            quantitative_filters = []")], "R-defaults", "RegressionSelector"),
     M("classification routes qualitative measures to quantitative features", [("AutoCarver/selectors/classification_selector.py", "        measures = {\"float\": quantitative_measures, \"str\": qualitative_measures}", "        measures = {\"float\": qualitative_measures, \"str\": quantitative_measures}")], "R-defaults", "ClassificationSelector"),
